@@ -146,7 +146,7 @@ def _name_return(header):
     return header[:idx] + '-> (r: ' + header[idx + 2:].strip() + ')', header[idx + 2:].strip()
 
 
-def build(repo, out_path):
+def build(repo, out_path, prop=None):
     """Returns (text, index) where index maps generated line ranges to items."""
     cache = {}
 
@@ -165,6 +165,10 @@ def build(repo, out_path):
     impl_groups = {}
     order = []
     for spec in ITEMS:
+        # one generated file per property: functions under contract for OTHER properties are left
+        # out, so an edit that takes one of them outside Verus' subset cannot disturb this check
+        if prop is not None and spec['kind'] == 'fn' and not spec.get('external_body') and prop not in spec.get('props', []):
+            continue
         src, items = scan(spec['file'])
         try:
             if spec['kind'] == 'fn':
@@ -236,7 +240,7 @@ def run_for_property(prop, repo, out_dir, log):
     mine = [s for s in ITEMS if prop in s.get('props', [])]
     if not mine:
         return []
-    out_path = os.path.join(out_dir, 'kernel.rs')
+    out_path = os.path.join(out_dir, 'kernel_%s.rs' % prop)
     results = []
 
     def all_undecided(reason):
@@ -251,7 +255,7 @@ def run_for_property(prop, repo, out_dir, log):
                 'bound': 'none (deductive, all inputs)', 'solver_s': round(secs, 4), 'verdict': verdict}
 
     try:
-        text, index = build(repo, out_path)
+        text, index = build(repo, out_path, prop)
     except (ExtractError, rustscan.ScanError) as e:
         return all_undecided('extract: %s' % e)
     t0 = time.time()
@@ -260,7 +264,7 @@ def run_for_property(prop, repo, out_dir, log):
     except subprocess.TimeoutExpired:
         return all_undecided('verus timed out')
     wall = time.time() - t0
-    open(os.path.join(out_dir, 'kernel.stderr'), 'w').write(p.stderr)
+    open(os.path.join(out_dir, 'kernel_%s.stderr' % prop), 'w').write(p.stderr)
     try:
         data = json.loads(p.stdout[p.stdout.index('{'):])
     except ValueError:
